@@ -57,6 +57,72 @@ Section Proofs.
     destruct (clone_loop _ _ _ _ _ cs 0 _) as [res okr]. cbn in E. subst res.
     destruct (clone_into hash cand growf keycap cs 0 _) as [t' [| |]]; reflexivity.
   Qed.
+  (* ---------------- obligations ---------------- *)
+
+  Lemma table_keys_ok_tinsert t strs a h k :
+    table_keys_ok ((h, k) :: t) strs -> table_keys_ok (tinsert hash growf t strs a h k) strs.
+  Proof.
+    unfold table_keys_ok, tinsert. intros H. inversion H as [|x l Hx Ht]; subst. constructor; [exact Hx|].
+    destruct (growf _); [|exact Ht].
+    apply Forall_forall. intros e He. apply in_map_iff in He as (e0 & <- & Hin). cbn [snd].
+    exact (proj1 (Forall_forall _ _) Ht e0 Hin).
+  Qed.
+
+  Lemma table_keys_ok_app t strs x : table_keys_ok t strs -> table_keys_ok t (strs ++ [x]).
+  Proof.
+    unfold table_keys_ok. intros H. eapply Forall_impl; [|exact H]. cbv beta. intros e He.
+    rewrite app_length. cbn [List.length]. lia.
+  Qed.
+
+  (* every index_unchecked! inside the table closures of the loop body is in bounds, in every iteration: the keys in the
+     table index the strings vector, and the next key is the next position *)
+  Theorem clone_loop_safe : forall src idx dst,
+    table_keys_ok (rmap dst) (rstrs dst) -> idx = N.of_nat (List.length (rstrs dst)) ->
+    snd (clone_loop hash cand growf keycap gen_clone_body src idx dst).
+  Proof.
+    set (B := gen_clone_body).
+    induction src as [|s rest IH]; intros idx dst Hk Hi; [exact I|].
+    cbn [clone_loop]. unfold B at 1 2. repeat autounfold with arenagen.
+    repeat (cbn [rf_params rf_body zip_args rexec rblock fold_right]; cbn;
+            unfold lookup_here, try_key; rodeo_step);
+    cbn; unfold lookup_here, try_key; cbn.
+    all: try match goal with
+        | |- context [clone_loop ?h ?c ?g ?k ?b ?r ?i ?d] =>
+            let Hn := fresh in
+            assert (Hn : snd (clone_loop h c g k b r i d));
+            [ apply IH; cbn [rmap rstrs rar];
+              [ apply table_keys_ok_tinsert; constructor;
+                [ cbn [snd]; rewrite app_length; cbn [List.length]; lia | apply table_keys_ok_app; exact Hk ]
+              | rewrite app_length; cbn [List.length]; lia ]
+            | destruct (clone_loop h c g k b r i d) as [res okr]; cbn [snd] in Hn |- * ]
+        end.
+    all: repeat match goal with |- _ /\ _ => split | |- True => exact I end.
+    all: try assumption.
+    all: try (apply table_keys_ok_app; exact Hk).
+    all: try (constructor; [cbn [snd]; rewrite app_length; cbn [List.length]; lia | apply table_keys_ok_app; exact Hk]).
+  Qed.
+
+  Theorem gen_try_clone_from_safe : forall tgt src cs, contents (rstrs src) (rar src) = Some cs ->
+    snd (run_steps hash cand growf keycap gen_clone_body cs (limit (rar src)) gen_try_clone_from
+                   (mkCs tgt HTargetOld None None True)).
+  Proof.
+    intros. repeat autounfold with arenagen. cbn [run_steps r_clear rmap].
+    pose proof (clone_loop_safe cs 0 (r_clear tgt) (Forall_nil _) eq_refl) as S. repeat autounfold with arenagen in S.
+    pose proof (clone_loop_eq cs 0 (r_clear tgt)) as E. repeat autounfold with arenagen in E.
+    destruct (clone_loop _ _ _ _ _ cs 0 (r_clear tgt)) as [[[t' [| |]]|] okr]; cbn [fst snd] in S, E |- *; auto; discriminate E.
+  Qed.
+
+  Theorem gen_try_clone_safe : forall src cs, contents (rstrs src) (rar src) = Some cs ->
+    snd (run_steps hash cand growf keycap gen_clone_body cs (limit (rar src)) gen_try_clone
+                   (mkCs src HSourceItself None None True)).
+  Proof.
+    intros. repeat autounfold with arenagen. cbn [run_steps].
+    set (cap := if sum_N (map slen cs) =? 0 then default_bytes else sum_N (map slen cs)).
+    pose proof (clone_loop_safe cs 0 (rodeo_new cap (N.max (limit (rar src)) cap)) (Forall_nil _) eq_refl) as S.
+    repeat autounfold with arenagen in S.
+    pose proof (clone_loop_eq cs 0 (rodeo_new cap (N.max (limit (rar src)) cap))) as E. repeat autounfold with arenagen in E.
+    destruct (clone_loop _ _ _ _ _ cs 0 _) as [[[t' [| |]]|] okr]; cbn [fst snd] in S, E |- *; auto; discriminate E.
+  Qed.
 End Proofs.
 
 Theorem gen_clone_wrappers : gen_clone_wrappers_expect = true.
@@ -66,3 +132,6 @@ Print Assumptions clone_loop_eq.
 Print Assumptions gen_try_clone_from_eq.
 Print Assumptions gen_try_clone_eq.
 Print Assumptions gen_clone_wrappers.
+Print Assumptions clone_loop_safe.
+Print Assumptions gen_try_clone_from_safe.
+Print Assumptions gen_try_clone_safe.
